@@ -79,10 +79,10 @@ def object_events(entry, enc, tid0, rng, quick, run):
         except Exception as e:
             run.violate(dname, "decoder_construction_raised", dict(entry.config(), decoder=dname), {"object": entry.name, "error": repr(e)[:200]})
             continue
-        budget = (400 if dname in slow else 3000) if quick else (1200 if dname in slow else 8000)
+        budget = (400 if dname in slow else 3000) if quick else (500 if dname in slow else 3000)
         if entry.component in ("ReedSolomonCodeEncoder",) or dname == "ReedMullerDecoder":
             budget = min(budget, 200)           # components with a listed finding: enough cases to re-confirm it
-        pats = patterns(n, t, 400 if not quick else 60, rng)
+        pats = patterns(n, t, 200 if not quick else 60, rng)
         msgs = list(range(1 << k)) if (1 << k) * len(pats) <= budget else None
         cases = []
         if msgs is not None:
@@ -123,8 +123,17 @@ def object_events(entry, enc, tid0, rng, quick, run):
     return evs, tid
 
 
-def _decode_all(dec, R, k, want_errors):
-    """Decode row by row batches; fall back to single words so one exception does not hide the others."""
+def _decode_all(dec, R, k, want_errors, chunk=32):
+    """Decode in batches of at most `chunk` rows (the brute-force decoders of the library allocate batch x 2^k x n at once);
+    fall back to single words so one exception does not hide the others."""
+    if R.shape[0] > chunk:
+        outs, errs = [], ([] if want_errors else None)
+        for i in range(0, R.shape[0], chunk):
+            o, e = _decode_all(dec, R[i:i + chunk], k, want_errors, chunk)
+            outs += o
+            if want_errors:
+                errs += e
+        return outs, errs
     outs, errs = [], ([] if want_errors else None)
     try:
         if want_errors:
